@@ -114,10 +114,11 @@ Qed.
 
 
 (* the status text the parser is written for: both command sets ask for the plain machine-readable status of the whole
-   working tree (no option that hides entries, such as --ignore-submodules or --untracked-files=no) *)
+   working tree, untracked files listed one by one (fix bf03dd4: without --untracked-files=all git shows only the directory of a
+   wholly untracked directory, which hides an untracked pattern file inside it) *)
 From Coq Require Import Strings.String.
 From BV Require Import Lib.StrLit.
 Theorem repo_status_templates :
-  assoc (StrLit.lit "status") VCS_SUBCOMMANDS_GIT = Some (StrLit.lit "git status --porcelain") /\
+  assoc (StrLit.lit "status") VCS_SUBCOMMANDS_GIT = Some (StrLit.lit "git status --porcelain --untracked-files=all") /\
   assoc (StrLit.lit "status") VCS_SUBCOMMANDS_HG = Some (StrLit.lit "hg status -umard").
 Proof. vm_compute. split; reflexivity. Qed.
